@@ -118,7 +118,14 @@ def run_case(case, rng):
             case.call("LAOStar.plan_on(sibling)", planner.plan_on, Bd.build(sib, rep))
             warm["on"] = False
             case.count("planner_reused")
-    res = case.call("LAOStar.plan_on", planner.plan_on, mdp, facts=dict(gamma=gamma, heuristic=hk))
+    # facts for the classifier of exceptions: how large the optimal values are, and whether some non-absorbing state has two
+    # available actions whose optimal action values agree to 1e-12 relative (a tie that floating point cannot hold at that size)
+    Qs_ = np.where(arr.avail, sol.Q, -np.inf)
+    live_ = ~pinned
+    top2_ = np.sort(Qs_[live_], axis=1)[:, -2:] if live_.any() and Qs_.shape[1] >= 2 else np.zeros((0, 2))
+    tie_ = bool(len(top2_) and np.any(np.isfinite(top2_[:, 0]) & (np.abs(top2_[:, 1] - top2_[:, 0]) <= 1e-12 * np.maximum(1.0, np.abs(top2_[:, 1])))))
+    plan_facts = dict(gamma=gamma, heuristic=hk, value_magnitude=float(np.abs(sol.V).max()), exact_tie_between_optimal_actions=tie_)
+    res = case.call("LAOStar.plan_on", planner.plan_on, mdp, facts=plan_facts)
     case.count("laostar_calls")
     if "heuristic_value_type" in case.params:
         now_h = {s_: float(v_) for s_, v_ in hobj.items()}
